@@ -83,6 +83,7 @@ type Interp struct {
 	raceOn    bool
 	shadows   map[*Value]*shadow
 	pools     map[*Value][]Value
+	syncMaps  map[*Value]*MapV
 	permCache map[string][]int
 	objIDs    map[interface{}]uint64
 	stubs     map[string]bool
